@@ -277,8 +277,9 @@ def h18_special_values(S):
     from repid.data._key import RoutingKey
     from repid.dependencies import Depends
 
-    which = S.pick("case", 7)
-    nested = S.flag("nested_under_another_provider") if which < 3 else False
+    which = S.pick("case", 9)
+    nested = S.flag("nested_under_another_provider") if which < 3 or which >= 7 else False
+    left = 1
     received = []
     out = {}
     marker = KeyError("a value, not a failure")
@@ -301,7 +302,56 @@ def h18_special_values(S):
     def sandbox():
         return "sandbox"
 
-    if which == 5:
+    if which == 7:
+        # a provider failing with one exception type or another, sync or async, with a retry left or not
+        import json
+        excs = [RuntimeError("boom"), ValueError("bad value"), KeyError("k"), TypeError("t"), LookupError("l"),
+                json.JSONDecodeError("Expecting value", "", 0), UnicodeDecodeError("utf-8", b"\xff", 0, 1, "invalid start byte")]
+        exc = excs[S.pick("provider_exception", len(excs))]
+        left = S.pick("retries_left", 2)
+        S.tag("provider_exception", type(exc).__name__)
+        if S.flag("sync_provider"):
+            def failing():
+                raise exc
+        else:
+            async def failing():
+                raise exc
+        dep = Depends(failing)
+        if nested:
+            async def outer(x: Annotated[object, dep]):
+                return x
+            dep = Depends(outer)
+
+        async def actor(d: Annotated[object, dep]):
+            received.append(d)
+    elif which == 8:
+        # a synchronous provider whose value happens to be awaitable (a lazy handle, a coroutine the actor wants to await itself)
+        class Handle:
+            awaited = 0
+
+            def __await__(self):
+                Handle.awaited += 1
+                return iter(())
+
+        kind = ["object-with-__await__", "future"][S.pick("awaitable_kind", 2)]
+        import asyncio as _aio
+        handle = {}
+
+        def lazy():
+            handle["v"] = Handle() if kind == "object-with-__await__" else _aio.get_event_loop().create_future()
+            if kind == "future":
+                handle["v"].set_result("inner")
+            return handle["v"]
+
+        dep = Depends(lazy)
+        if nested:
+            async def outer(x: Annotated[object, dep]):
+                return x
+            dep = Depends(outer)
+
+        async def actor(d: Annotated[object, dep]):
+            received.append(d)
+    elif which == 5:
         # a synchronous provider that is a functools.partial (no __name__), declared directly or installed as an override
         import functools
 
@@ -354,16 +404,29 @@ def h18_special_values(S):
         w = World()
         await w.open(record=True)
         key = RoutingKey(topic="job", queue="default", id_="m1")
-        params = P.Parameters(retries=P.RetriesProperties(max_amount=1, already_tried=0), timestamp=P.datetime.now())
+        params = P.Parameters(retries=P.RetriesProperties(max_amount=left, already_tried=0), timestamp=P.datetime.now())
         w.broker.queues["default"].processing.add(MemMessage(key, "", params))
         proc = _Processor(w.conn)
         await proc.process(mk_actor(actor, converter=BasicConverter, retry_policy=lambda retry_number=1: real_timedelta(hours=1)), key, "", params)
         out["ops"] = [x["op"] for x in w.rec.calls]
+        rq = [x for x in w.rec.calls if x["op"] == "requeue"]
+        out["tried"] = rq[0]["args"][2].retries.already_tried if rq else None
 
     run_async(main, clock=PinnedClock(T0))
     S.cover("special-values")
     S.tag("case", ["returns-exception-instance", "answers-the-message", "plain", "annotated-dependency-class-with-provider", "two-depends-one-provider",
-                   "partial-as-sync-provider", "process-pool-provider"][which])
+                   "partial-as-sync-provider", "process-pool-provider", "provider-raises", "sync-provider-returns-an-awaitable"][which])
+    if which == 7:
+        S.check("actor-not-invoked-when-a-provider-fails", received == [])
+        S.check("provider-failure-follows-the-retry-rules", out["ops"] == (["requeue"] if left else ["nack"]) and (not left or out["tried"] == 1),
+                info=f"{type(exc).__name__} with {left} retries left: broker calls {out['ops']} (counter {out['tried']})")
+        return
+    if which == 8:
+        S.check("awaitable-value-is-passed-on-as-it-is", len(received) == 1 and received[0] is handle.get("v") and out["ops"] == ["ack"],
+                info=f"{kind}: actor received {received!r}, provider returned {handle.get('v')!r}; broker calls {out['ops']}")
+        if kind == "object-with-__await__":
+            S.check("nobody-awaited-the-value-on-the-actors-behalf", Handle.awaited == 0, info=f"awaited {Handle.awaited} times")
+        return
     if which == 5:
         S.check("callable-without-a-name-works-as-a-provider", received == [40] and out["ops"] == ["ack"], info=f"received={received} ops={out['ops']}")
         return
@@ -441,7 +504,9 @@ HARNESSES = [
     Harness(name="H18-declaration", scenario=h18_declaration, bounds={"cases": "5 unsupported (positional-only, *args, **kwargs dependencies; non-default plain argument) and 2 supported declarations x 2 converters"},
             functions=["dependencies/depends.py:Depends._update_subdependencies", "converter.py:BasicConverter.__init__"], covers=["declared"]),
     Harness(name="H18-special-values", scenario=h18_special_values,
-            bounds={"provider": "returns an exception instance as its value / answers the message through its MessageDependency / plain; direct or nested under another provider"},
+            bounds={"provider": "returns an exception instance as its value / answers the message through its MessageDependency / plain; direct or nested under another provider",
+                    "further cases": "annotated dependency class with a provider; two Depends over one provider; functools.partial provider; process-pool provider overridden; "
+                                     "a provider raising one of seven exception types (sync/async, retry left or not); a sync provider returning an awaitable"},
             functions=["_processor.py:_Processor._actor_run", "dependencies/depends.py:Depends.resolve"], covers=["special-values"]),
     Harness(name="H18-collision", scenario=h18_collision, bounds={"payload": "an entry named like the dependency parameter; actor with or without **kwargs"},
             covers=["collision"]),
